@@ -212,10 +212,9 @@ class History:
         elif mode == "period":
             sel["start"], sel["end"] = dt.datetime(2017, 1, 1), dt.datetime(2017, 1, 2)
         elif mode == "files":
+            # (an empty explicit list selects nothing - it must not fall back to "everything")
             k = rng.randint(0, len(files))
             sel["files"] = rng.sample(files, k)
-            if not sel["files"]:
-                sel["mode"] = "all"
         if mode != "files" and rng.random() < 0.3:
             sel["filters"] = rng.choice([{"sat": "n18"}, {"sat": ["n18", "metop"]}, {"!sat": "n19"}])
         return sel
@@ -451,6 +450,60 @@ class History:
         self.flags.add("template-change")
         return self.verify("parallel convert")
 
+    def step_recopy(self):
+        """copy -> overwrite originals with same-size data -> copy again to the same target:
+        the target must hold the new content."""
+        rng = self.rng
+        cands = [n for n in sorted(self.filesets) if len(self.files_of(n)) >= 2
+                 and self.filesets[n][0] is not None]
+        if not cands:
+            return True
+        src = rng.choice(cands)
+        fs, tkey, suffix = self.filesets[src]
+        tname = "t%d" % len(self.filesets)
+        tkey2 = rng.choice(sorted(TEMPLATES))
+        target = make_fs(self.root, tkey2, suffix, tname, worker_type="thread")
+        self.filesets[tname] = (target, tkey2, suffix)
+        self.steps.append(["recopy", src, tname, tkey2])
+        self.rec.ev()
+        self.rec.count("step.recopy")
+        for round_ in (1, 2):
+            try:
+                with warnings.catch_warnings():
+                    warnings.simplefilter("ignore")
+                    fs.move(target, copy=True)
+            except Exception as exc:
+                self.rec.violation("operation-exception", self.case(),
+                                   {"op": "copy (round %d)" % round_, "exception": repr(exc),
+                                    "trace": traceback.format_exc()[-1000:]})
+                return False
+            for p in self.files_of(src):
+                _, t0, t1, sat = self.meta[p]
+                q = self.name_for(tname, t0, t1, sat)
+                self.model[q] = dict(self.model[p])
+                self.meta[q] = (tname, t0, t1, sat)
+            if not self.verify("copy round %d to the same target" % round_):
+                return False
+            if round_ == 1:
+                # overwrite some originals with content of exactly the same stored size
+                for p in rng.sample(self.files_of(src), max(1, len(self.files_of(src)) // 2)):
+                    _, t0, t1, sat = self.meta[p]
+                    old = self.model[p]
+                    content = {k: v for k, v in old.items() if k not in ("write_stamp",)}
+                    content["payload"] = "z" * len(old.get("payload", "")) if old.get("payload") \
+                        else old.get("payload", "")
+                    content["id"] = int(str(old["id"])[::-1]) if len(str(int(str(old["id"])[::-1]))) == \
+                        len(str(old["id"])) and str(old["id"])[::-1] != str(old["id"]) else old["id"]
+                    if content == {k: v for k, v in old.items() if k != "write_stamp"}:
+                        content["payload"] = "q" * max(1, len(old.get("payload", ""))) \
+                            if old.get("payload") else "q"
+                    fs[t0:t1, {"sat": sat}] = content
+                    stored = dict(content)
+                    if fs.write_args.get("stamp"):
+                        stored["write_stamp"] = fs.write_args["stamp"]
+                    self.model[p] = stored
+        return True
+
     def step_delete(self):
         rng = self.rng
         src = rng.choice(sorted(self.filesets))
@@ -554,8 +607,10 @@ def run_history(rec, seed, hrng):
                 ok = h.step_write()
             elif r < 0.6:
                 ok = h.step_move()
-            elif r < 0.8:
+            elif r < 0.78:
                 ok = h.step_delete()
+            elif r < 0.86:
+                ok = h.step_recopy()
             else:
                 ok = h.step_read()
             if not ok:
